@@ -1,4 +1,5 @@
 import Proofs.NonInterference
+import Proofs.RestartAvg
 import Pegnet.Generated.Facts
 /-
   C02 — Per-block atomicity and crash consistency of the balance store.
@@ -162,6 +163,18 @@ theorem resume_equals_uninterrupted_partial (P : Params) (ch : Nat → Block) (h
   only_attempts_matter P ch hch (freshNode P).mem es (freshNode P) (freshNode P) [] rfl rfl
     (inOrder_fresh P) (inOrder_fresh P) hb
 
+/-- **Resume equals uninterrupted run, at every height** — above the PIP-10 activation too, where
+    the averaging cache prices conversions — on runs none of whose averaging windows has a hole
+    (`WholeRun`, Proofs/RestartAvg; C09 shows that a hole is exactly what breaks it): erase every
+    kill, fault and restart; ledger and sync height are unchanged. -/
+theorem resume_equals_uninterrupted_whole_windows (P : Params) (hp : 0 < P.avgPeriod) (ch : Nat → Block)
+    (hch : ∀ h, (ch h).height = h) (es : List Ev) (hw : WholeRun P ch (freshNode P) es) :
+    (runEvs P ch (freshNode P) es).db.ledger = (runEvs P ch (freshNode P) (es.filter Ev.isAttempt)).db.ledger ∧
+    (runEvs P ch (freshNode P) es).mem = (runEvs P ch (freshNode P) (es.filter Ev.isAttempt)).mem :=
+  only_attempts_matter_whole P hp ch hch (freshNode P).mem es (freshNode P) (freshNode P) [] rfl rfl
+    (inOrder_fresh P) (inOrder_fresh P)
+    ⟨cacheOK_empty P, cacheSem_empty P _, Nat.zero_le _⟩ ⟨cacheOK_empty P, cacheSem_empty P _, Nat.zero_le _⟩ hw
+
 /-- non-vacuity: a run with a kill, a restart and two completed iterations -/
 example : [Ev.attempt, .aborted true, .restart, .attempt].filter Ev.isAttempt = [.attempt, .attempt] := rfl
 
@@ -176,3 +189,4 @@ end Pegnet.C02
 #print axioms Pegnet.C02.heights_once_in_order_from
 #print axioms Pegnet.C02.killed_iterations_leave_no_trace
 #print axioms Pegnet.C02.resume_equals_uninterrupted_partial
+#print axioms Pegnet.C02.resume_equals_uninterrupted_whole_windows
